@@ -12,6 +12,7 @@ import tempfile
 import warnings
 
 import numpy as np
+from pathlib import Path
 
 from .. import tlc, disk
 from .. import readcode_fe as fe
@@ -110,7 +111,15 @@ def run(tier, seed):
                 for shape in shapes + EMPTY:
                     d = os.path.join(root, '%s_%s_%s' % (nt, bo, 'x'.join(map(str, shape))))
                     ref = values(nt, shape).astype(dtype_of(nt, bo))
-                    a = darr.asarray(d, ref)
+                    if len(arrays) % 3 == 1 and shape[0] >= 2:
+                        # content reached through a history on one handle with code generated in between
+                        a = darr.asarray(d, ref[:-1], accessmode='r+')
+                        for lang in langs:
+                            a.readcode(lang)
+                            a.readcode(lang, abspath=True)
+                        a.append(ref[-1:])
+                    else:
+                        a = darr.asarray(d, ref)
                     arrays.append((a, d, nt, bo, shape, ref))
         for (a, d, nt, bo, shape, ref) in arrays:
             empty = 0 in shape
@@ -173,6 +182,39 @@ def run(tier, seed):
                 if tuple(a.readcodelanguages) != tuple(sorted(got_langs)):
                     run.violation('C06|readcodelanguages', {'numtype': nt, 'shape': shape, 'readcodelanguages': a.readcodelanguages,
                                                            'languages_with_code': sorted(got_langs)}, {'kind': 'langs'})
+        # ---- arrays opened by RELATIVE paths, the working directory changing between them: the absolute path in
+        # the code is that of the array's own data file (same relative text, other directory, same process)
+        cwd0 = os.getcwd()
+        try:
+            bases = [os.path.join(root, 'cwdA'), os.path.join(root, 'cwdB'), os.path.join(root, 'cwdC')]
+            rel = os.path.join('data', 'arr.darr')
+            for k, base in enumerate(bases):
+                os.makedirs(os.path.join(base, 'data'))
+                os.chdir(base)
+                nt = ['int32', 'float64', 'uint8'][k]
+                ra = darr.asarray(rel, values(nt, (3, 2)).astype(dtype_of(nt, BYTEORDERS[k % 2])))
+                handles = [ra, darr.Array(rel), darr.Array(Path(rel))]
+                wantpath = os.path.realpath(os.path.join(base, rel, 'arrayvalues.bin'))
+                for h in handles:
+                    for lang in langs:
+                        c2 = h.readcode(lang, abspath=True)
+                        if c2 is None or lang == 'darr':
+                            continue
+                        run.add('programs')
+                        if lang in fe.PARSERS:
+                            try:
+                                got = fe.PARSERS[lang](c2)['path']
+                            except fe.NotWellFormed as e:
+                                got = 'not well-formed: %s' % e
+                            okp = got == wantpath
+                        else:
+                            got, okp = None, ("'%s'" % wantpath) in c2
+                        if not okp:
+                            run.violation('C06|path|%s|abspath of a relative-path array after chdir' % lang,
+                                          {'language': lang, 'cwd': base, 'array_path': rel, 'expected_path': wantpath,
+                                           'path_in_code': got, 'code': c2}, {'kind': 'readcode-path-cwd'})
+        finally:
+            os.chdir(cwd0)
         # ---- TLC judges the plans
         if plans:
             defs = 'Plans == {\n' + ',\n'.join(
